@@ -209,6 +209,13 @@ def judge_error_task(case, real, ans):
         return None
     if real["esc"] != "none":
         return ("exception escaped service() from the server's own error path", "none", real["esc"], None)
+    if not T.ident_encodable(case):
+        # a server whose ident cannot be encoded can build no head at all (configuration outside the
+        # property's quantifier): what remains is that the connection is closed and nothing is sent
+        if T.wire_of(real) or real["close"] != "1":
+            return ("no head can be built (ident is not latin-1): bytes were sent or the connection was kept",
+                    "nothing sent, connection closed", "%d bytes, close=%s" % (len(T.wire_of(real)), real["close"]), None)
+        return None
     if not T.wire_of(real):
         return ("request.error but no error response was written", "one complete error response", "nothing", None)
     if n != 1 or left:
